@@ -281,7 +281,9 @@ fn get_bc3_options(options: &EncodeOptions) -> (bc1::Bc1Options, bc4::Bc4Options
 }
 pub(crate) const BC3_UNORM: EncoderSet = EncoderSet::new_bc(&[Encoder::new_universal(|args| {
     block_4x4::<16>(args, |data, row_pitch, options, out| {
-        let (bc1_options, bc4_options) = get_bc3_options(options);
+        let (bc1_options, mut bc4_options) = get_bc3_options(options);
+        // the BC4 block stores alpha, so it follows the alpha dithering option
+        bc4_options.dither = options.dithering.alpha();
 
         let block = get_4x4_rgba(data, row_pitch);
 
@@ -297,7 +299,9 @@ pub(crate) const BC3_UNORM: EncoderSet = EncoderSet::new_bc(&[Encoder::new_unive
 pub(crate) const BC3_UNORM_PREMULTIPLIED_ALPHA: EncoderSet =
     EncoderSet::new_bc(&[Encoder::new_universal(|args| {
         block_4x4::<16>(args, |data, row_pitch, options, out| {
-            let (bc1_options, bc4_options) = get_bc3_options(options);
+            let (bc1_options, mut bc4_options) = get_bc3_options(options);
+            // the BC4 block stores alpha, so it follows the alpha dithering option
+            bc4_options.dither = options.dithering.alpha();
 
             let mut block = get_4x4_rgba(data, row_pitch);
             pre_multiply_alpha(&mut block);
